@@ -40,6 +40,7 @@ type Contract struct {
 	Replay    string
 	Trusted   bool // from a spec file (assumption), not checked
 	Synth     bool // synthesised from a type invariant only
+	IfaceRecv bool // has clauses inherited from an interface contract (they name the receiver `recv`)
 	Iterates  string // name of callback parameter: callee calls it 0..n times
 	File      string
 	Line      int
